@@ -41,11 +41,12 @@ type Client struct {
 	done    bool
 	running sync.WaitGroup // executions in flight (waited for by Close, as the real client waits for its read loop)
 	schema  *schema.CallableSchema
+	closing chan struct{} // closed by Close: ends the write loops, as the real client's context does
 }
 
 func NewClient(conn *Conn) *Client {
 	st := &execState{conn: conn}
-	return &Client{conn: conn, state: st, schema: newPlugin(conn, st)}
+	return &Client{conn: conn, state: st, schema: newPlugin(conn, st), closing: make(chan struct{})}
 }
 
 var schemaCache any
@@ -102,12 +103,15 @@ func (c *Client) Execute(input schema.Input, toStep <-chan schema.Input, fromSte
 			w.HighWater[group] = w.Running[group]
 		}
 	}
-	// signal pump: the counterpart of the client's write loop plus the server's signal dispatch
+	// signal pump: the counterpart of the client's write loop plus the server's signal dispatch. Like the
+	// real write loop it lives until the signal channel is closed or the client is closed - not merely
+	// until the execution ends - so a client that is never closed leaves it behind.
 	stop := make(chan struct{})
+	executing := true
 	if toStep != nil {
-		vrt.GoDaemon("env/client.sigpump", func() {
+		vrt.Go("env/client.sigpump", func() {
 			for {
-				switch vrt.Select("env/client.sigpump", false, vrt.R(toStep), vrt.R(stop)) {
+				switch vrt.Select("env/client.sigpump", false, vrt.R(toStep), vrt.R(c.closing)) {
 				case 0:
 					sig, ok := <-toStep
 					if !ok {
@@ -115,11 +119,11 @@ func (c *Client) Execute(input schema.Input, toStep <-chan schema.Input, fromSte
 					}
 					Log("signal", c.conn.Key, sig.RunID, c.conn.ID_, sig.ID, nil)
 					data, _ := Wire(sig.InputData)
-					if sig.ID == plugin.CancellationSignalSchema.ID() {
+					if executing && sig.ID == plugin.CancellationSignalSchema.ID() {
 						_ = c.schema.CallSignal(context.Background(), sig.RunID, input.ID, sig.ID, data)
 					}
 				case 1:
-					<-stop
+					<-c.closing
 					return
 				}
 			}
@@ -128,6 +132,7 @@ func (c *Client) Execute(input schema.Input, toStep <-chan schema.Input, fromSte
 	if k := c.conn.Script.Run; k == RunBadOutputID || k == RunBadOutputData {
 		// the real client hands over whatever the plugin sent; the SDK's server side would not let these
 		// through, a plugin written without it can
+		executing = false
 		vrt.PreClose("env/client.exec.stop", stop)
 		close(stop)
 		if w != nil {
@@ -141,6 +146,7 @@ func (c *Client) Execute(input schema.Input, toStep <-chan schema.Input, fromSte
 		return atp.ExecutionResult{OutputID: "success", OutputData: map[any]any{"v": "not a number", "unexpected": []any{uint64(1)}}}
 	}
 	outputID, outputData, callErr := c.schema.CallStep(context.Background(), input.RunID, input.ID, wired)
+	executing = false
 	vrt.PreClose("env/client.exec.stop", stop)
 	close(stop)
 	if w != nil {
@@ -171,6 +177,8 @@ func (c *Client) Close() error {
 		return nil
 	}
 	c.done = true
+	vrt.PreClose("env/client.close", c.closing)
+	close(c.closing)
 	// like the real client, wait for the in-flight execution to end
 	vrt.WaitGroupWait("env/client.close", &c.running)
 	if c.conn.Script.ClientCloseFail {
